@@ -27,10 +27,10 @@ BUDGET = {'quick': 50, 'thorough': 600}
 EXHAUSTIVE = {'quick': True, 'thorough': True}
 EXHAUSTIVE_NOTE = {'quick': 'all 5 050 columns (w<=3, n<=4) x {numeric, code/flag} through Encoder->Decoder and R reader',
                    'thorough': 'all 74 954 columns (w<=4, n<=4) x {numeric, code/flag}, plus R-written width variants'}
-REQUIRED = {'quick': {'columns_enc_dec': 10100, 'columns_r_written': 10000, 'transparency_cases': 600,
-                      'wide_columns': 400, 'string_columns': 200},
-            'thorough': {'columns_enc_dec': 149908, 'columns_r_written': 140000, 'transparency_cases': 15000,
-                         'wide_columns': 10000, 'string_columns': 5000}}
+REQUIRED = {'quick': {'columns_enc_dec': 10100, 'columns_r_written': 10000, 'transparency_cases': 310, 'wide_columns': 400,
+                      'string_columns': 200},
+            'thorough': {'columns_enc_dec': 149908, 'columns_r_written': 140000, 'transparency_cases': 6200,
+                      'wide_columns': 10000, 'string_columns': 5000}}
 
 
 def anchors():
